@@ -78,6 +78,14 @@ def base_doc(rng, profile, latlon_p=0.0, sqlite_p=0.15, pickle_p=0.06, fault_kin
          "backend": backend, "log": "ERROR"}
     if trace2 is not None and any(op.get("alt") for op in ops):
         d["trace2"] = trace2
+    if backend == "inmem_api" and rng.random() < 0.6:
+        # while the map was built through add_node / add_edge, one or two calls were refused (road to a node declared
+        # only later); nothing of a refused call may remain in the map
+        labs = [nd[0] for nd in world["nodes"]]
+        nb = {nd[0]: set(nd[2]) for nd in world["nodes"]}
+        cand = [[a, b] for a in labs for b in labs if a != b and b not in nb[a]]
+        if cand:
+            world["rejected"] = rng.sample(cand, min(len(cand), rng.randint(1, 2)))
     return d
 
 
@@ -547,6 +555,14 @@ def gen_C08(rng, tier):
     d = base_doc(rng, "extend", latlon_p=0.05, trace_kw={"nobs": rng.choice([2, 3, 4, 5, 6, 7, 8])},
                  cfg_kw={"second_order": rng.random() < 0.25}, fault_kinds=("relist", "dup", "clock"),
                  world_kw={"linked_p": 0.1})
+    if not d["world"].get("latlon") and rng.random() < 0.25:
+        # the matcher object matched another, usually longer, trace before (a non-expanding match starts afresh,
+        # whatever the object held; columns of the earlier trace beyond the new prefix must not survive)
+        n2 = len(d["trace"]) + rng.choice([0, 1, 2, 3])
+        t2 = gen.gen_trace(rng, d["world"], nobs=n2)
+        if t2:
+            d["trace2"] = t2
+            d["ops"] = [{"op": "match", "k": len(t2), "unique": False, "alt": True}] + d["ops"]
     return d
 
 
@@ -579,6 +595,8 @@ def eval_C08(doc):
             stats["probe_extended_after_early_stop"] = 1
     if doc["cfg"].get("max_lattice_width"):
         stats["probe_with_width"] = 1
+    if doc["ops"][0].get("alt"):
+        stats["probe_matcher_used_for_longer_trace_before"] = 1
     return result(vs, doc, inc, stats=stats)
 
 
